@@ -184,7 +184,7 @@ func buildTable() *Node {
 			leaf("mode", "string"), leaf("modedep", "string"),
 			leaf("defmode", "string", def("on")), leaf("defdep", "string"),
 			list("svc", "name", leaf("name", "string"), leaf("kind", "string"), leaf("note", "string"), leaf("weight", "uint8", def("5")), leaf("dd", "string")),
-			cont("mc", presence(), leaf("musthave", "string"), leaf("opt", "string")),
+			cont("mc", presence(), leaf("musthave", "string"), leaf("opt", "string"), leaf("mcd", "string", def("d"))),
 			list("ref", "name", leaf("name", "string"),
 				leaf("target", "leafref", lrefTo("string")), leaf("soft", "leafref", lrefTo("string")),
 				leaf("needkind", "string"), leaf("svcname", "string"), leaf("viasvc", "leafref", lrefTo("string")), leaf("chk", "string"), leaf("wref", "string")),
